@@ -259,6 +259,9 @@ def shard(ctx):
     out = Out()
     hyp_search(out, ctx["known"], case_strategy(), evaluate, PARAMS[ctx["tier"]], ctx["seed"])
     sim.cleanup_sandbox()
+    from .. import fuzz
+
+    fuzz.thorough_stage("C06", ctx, out)
     return out
 
 
